@@ -52,12 +52,13 @@ pub fn until_next_unindented(input: &str, at_least_until: usize, fallback_len: u
         prev_was_newline = ch == '\n';
     }
 
-    // No match found, use fallback
-    let mut fallback_len = input.len().min(fallback_len);
+    // No match found, use fallback: never stop short of `at_least_until`, and keep the leading line
+    // breaks, so that the caller's line numbering stays aligned with the source
+    let mut fallback_len = input.len().min(fallback_len.max(at_least_until));
     while !input.is_char_boundary(fallback_len) {
         fallback_len -= 1;
     }
-    input[..fallback_len].trim()
+    input[..fallback_len].trim_end()
 }
 
 pub fn hex_to_bools(c: char) -> [bool; 4] {
